@@ -276,14 +276,24 @@ func c08Token(r *zsim.Run) {
 	h := &c08Hist{name: "token-limiter", model: c08TokenModel(rate, burst)}
 	r.Data = h
 	callerNow := time.Now()
+	prevNow := callerNow
+	staleOK := false
 	rounds := 2 + o.Intn(6)
 	for round := 0; round < rounds && !r.Failed(); round++ {
 		tasks := 1 + o.Intn(3)
 		done := 0
-		now := callerNow
 		for t := 0; t < tasks; t++ {
 			t := t
 			n := 1 + o.Intn(5)
+			now := callerNow
+			if staleOK && o.Intn(3) == 0 {
+				// a caller that read its clock before the last advance and gets to the limiter only now: the
+				// bucket is refilled for the time that has passed, once, whoever reports it. (Only while the
+				// server's clock stands still: the keys' expiry, which runs on server time, is a refill of its
+				// own that the caller-time model does not describe.)
+				now = prevNow
+				r.Probe("caller_with_an_older_clock_reading")
+			}
 			r.Go(fmt.Sprintf("caller%d", t), func() {
 				defer func() { done++ }()
 				for i := 0; i < n; i++ {
@@ -309,11 +319,16 @@ func c08Token(r *zsim.Run) {
 		}
 		// caller time advances; server time advances by the same amount or less
 		adv := zsim.Pick(o, 0, 1, 1, 2, 5, 30)
+		prevNow = callerNow
 		callerNow = callerNow.Add(time.Duration(adv) * time.Second)
 		sadv := adv
 		if adv > 0 && o.Intn(3) == 0 {
 			sadv = o.Intn(adv + 1)
 		}
+		if adv > 0 && adv <= 2 && o.Intn(3) == 0 {
+			sadv = 0
+		}
+		staleOK = adv > 0 && sadv == 0
 		if sadv > 0 {
 			srv.Advance(time.Duration(sadv) * time.Second)
 		}
